@@ -300,3 +300,7 @@ mod tests {
         }
     ];
 }
+
+#[cfg(kani)]
+#[path = "/verif/kani/std_from_unix_timestamp.rs"]
+mod kani_verif;
